@@ -207,6 +207,17 @@ pub fn directed_shapes(r: &mut StdRng) -> Vec<(String, Vec<Vec<u8>>)> {
             (0..700).map(|i| if i == 699 { 7 } else { (i % 251) as u8 }).collect(),
         ]),
     ));
+    // long shared suffixes under different prefixes (every state of the suffix is shareable)
+    for &n in &[95usize, 96, 97, 130, 300] {
+        let suffix: Vec<u8> = (0..n).map(|i| b'a' + (i % 23) as u8).collect();
+        let mut keys = vec![];
+        for p in &["A-", "B-", "Cc-"] {
+            let mut k = p.as_bytes().to_vec();
+            k.extend_from_slice(&suffix);
+            keys.push(k);
+        }
+        out.push((format!("long-suffix-{}", n), sort_dedup(keys)));
+    }
     out.push(("affix".into(), affix_keys(r, 12, 8)));
     out
 }
